@@ -74,14 +74,16 @@ TIMEOUT = 600.0
 PER_SPEC = 10
 
 KINDS = ["reneg", "resub", "resub2", "swapadd", "swapmul", "tt", "mul1", "add0", "negneg", "resplit", "init_fresh", "init_repeat", "init_clash",
-         "custom", "keep", "asfn", "asfn_diamond", "mul1_fwd", "negneg_fwd", "tt_fwd"]
+         "custom", "keep", "asfn", "asfn_diamond", "mul1_fwd", "negneg_fwd", "tt_fwd", "two_out"]
 # kind -> what the host generator plants
 PLANT = {"reneg": "neg", "resub": "sub", "resub2": "sub", "swapadd": "add", "swapmul": "mul", "tt": "tt", "mul1": "mul1", "add0": "add0",
          "negneg": "negneg", "resplit": "split", "init_fresh": "sub", "init_repeat": "sub", "init_clash": "sub", "custom": "relu",
          "keep": "neg", "asfn": "subrelu", "asfn_diamond": "diamond",
          # replacements that FORWARD an existing value instead of creating a node (x*1 -> x, -(-x) -> x, a transpose pair that
          # composes to the identity is left to tt): what takes over the matched output is a value the rule did not create
-         "mul1_fwd": "mul1", "negneg_fwd": "negneg", "tt_fwd": "tt"}
+         "mul1_fwd": "mul1", "negneg_fwd": "negneg", "tt_fwd": "tt",
+         # a pattern with two OUTPUT NODES (neither is in the other's backward slice)
+         "two_out": "addmul"}
 STRATA = ["flat", "cf", "fn", "cf+fn", "cfonly"]   # cfonly: instances only inside If/Loop bodies, outer values named val_0/val_1
 CLASH = "c07_zero"
 
@@ -184,6 +186,8 @@ def pattern_ast(kind):
         return {"nodes": [N("Neg", [V("x")])], "outs": [["o", 0, 0]]}
     if kind in ("resub", "resub2", "init_fresh", "init_repeat", "init_clash") or kind in MULTI_CONST_KINDS:
         return {"nodes": [N("Sub", [V("x"), V("y")])], "outs": [["o", 0, 0]]}
+    if kind == "two_out":
+        return {"nodes": [N("Add", [V("x"), V("y")]), N("Mul", [V("x"), V("z")])], "outs": [["o", 0, 0], ["o", 1, 0]]}
     if kind == "swapadd":
         return {"nodes": [N("Add", [V("x"), V("y")])], "outs": [["o", 0, 0]]}
     if kind == "swapmul":
@@ -271,6 +275,8 @@ def make_rule(kind, notes=None):
         rep, cond = (lambda op, x, y, **_: mark(op.Sub(x, y))), guard
     elif kind == "resub2":   # two new nodes: the intermediate gets an automatic name (val_0, ...)
         rep, cond = (lambda op, x, y, **_: mark(op.Sub(op.Identity(x), op.Identity(y)))), guard
+    elif kind == "two_out":
+        rep, cond = (lambda op, x, y, z, **_: mark((op.Add(y, x), op.Mul(z, x)))), guard
     elif kind == "swapadd":
         rep, cond = (lambda op, x, y, **_: mark(op.Add(y, x))), guard
     elif kind == "swapmul":
